@@ -294,12 +294,16 @@ def forwardref_obligations(chk):
 
     st = {"cur": None}
     I.hooks["setattr"] = lambda I, path, obj, attr, v: st["cur"]["sets"].append((obj, attr, v))
+    I.hooks["memo_call"] = lambda I, path, f, args, kwargs: st["cur"]["memo"].append(f.qualname)
+    import ast as _ast
+    _fnode = I.src.find_def(func)[2]
+    self_memoised = any("cache" in _ast.unparse(d) for d in _fnode.decorator_list)
 
     def mk(I, path):
         cls_const(str)
         ref = path.fresh("ref")
         fa, fc = path.fresh("is_argument", BoolS), path.fresh("is_class", BoolS)
-        st["cur"] = {"ref": ref, "sets": [], "flags": (fa, fc)}
+        st["cur"] = {"ref": ref, "sets": [], "flags": (fa, fc), "memo": []}
         return [SV(ref)], {"module": SV(path.fresh("module")), "is_argument": SBool(fa), "is_class": SBool(fc)}, st["cur"]
     for pi, (path, out, obls, writes, cur) in enumerate(I.run_function(func, mk)):
         hy = path.hyps + class_axioms()
@@ -310,6 +314,12 @@ def forwardref_obligations(chk):
                   and isinstance(sets["__forward_value__"], SV) and sets["__forward_value__"].t.eq(cur["ref"]))
         chk.add(Ob(func, "a-reference-made-from-a-type-is-pinned-to-that-type", f"p{pi}", hy + [z3.Not(is_str)], z3.BoolVal(bool(pinned))))
         chk.add(Ob(func, "a-reference-made-from-text-is-left-unevaluated", f"p{pi}", hy + [is_str], z3.BoolVal(not sets)))
+        # the pin is a write on the reference object: it must be an object of this very call.  References made from different
+        # types may share name and module (`list[a.Item]` / `list[b.Item]`, equally named classes of two modules or two
+        # function bodies); an object handed out by a memoised function would be shared between them and carry the last pin.
+        chk.add(Ob(func, "a-pinned-reference-is-an-object-of-this-call-not-one-shared-through-a-memoised-function", f"p{pi}",
+                   hy + [z3.Not(is_str)], z3.BoolVal(not cur["memo"] and not self_memoised),
+                   {"memoised_on_the_way": list(cur["memo"]) + (["forwardref itself"] if self_memoised else [])}))
         goal = sub(cls_of(to_val(out.value)), cls_const(typing.ForwardRef)) if out.kind == "ret" else z3.BoolVal(False)
         chk.add(Ob(func, "returns-a-typing.ForwardRef", f"p{pi}", hy, goal, {"outcome": out.kind}))
         if out.kind == "ret":
